@@ -11,7 +11,8 @@
   clone), and which constructs Compile rejects.
 
   Values are the System values the arithmetic / logic core knows (`Val`): Boolean, Integer,
-  Decimal, String.  Resources are not represented here (navigation has its own model,
+  Decimal, String, Quantity, and — through FP.Model.Temporal — Date, DateTime and Time (literals,
+  comparison, equality, calendar arithmetic).  Resources are not represented here (navigation has its own model,
   FP.Model.Navigate / Path); a member name therefore meets only System items: a root type name
   filters them away, any other name is ErrInvalidField.
   Constructs outside the modelled fragment give `unmodelled`, never a guessed value.
@@ -25,6 +26,7 @@ import FP.Model.Text
 import FP.Model.FuncTable
 import FP.Model.Types
 import FP.Model.Conv
+import FP.Model.Temporal
 import FP.Gen.Schema
 namespace FP.Model.Eval
 open FP FP.Go FP.Model FP.Model.Syntax
@@ -91,7 +93,20 @@ def compileLit : Tok → CRes E
   | .kw "false" => .ok (.lit (.bool false))
   | .str s => .ok (.lit (.str (utf8 (Literal.decodeBody s.toList))))
   | .num n => compileNumber n
-  | _ => .unmodelled                      -- date / time literals: FP.Model.Conv, not assembled here
+  | .temporal t =>                        -- VisitDateLiteral / VisitDateTimeLiteral / VisitTimeLiteral
+    (match Temporal.literal t with
+     | some v => .ok (.lit v)
+     | none => .error)
+  | _ => .unmodelled
+
+/-- `VisitQuantityLiteral`: `system.ParseQuantity(number, unit)`; the unit is the token text without
+    its quotes (a calendar keyword is its own text) -/
+def compileQuantity (n : String) (u : Tok) : CRes E :=
+  match Text.parseDecGo n.toList, u with
+  | none, _ => .error
+  | some d, .kw k => .ok (.lit (.quantity d (utf8 k.toList)))
+  | some d, .str s => .ok (.lit (.quantity d (utf8 s.toList)))
+  | some _, _ => .unmodelled
 
 /-! ### the visitor -/
 
@@ -109,7 +124,8 @@ def modelledFns : List String :=
    "first", "last", "tail", "skip", "take", "distinct", "isDistinct", "intersect", "exclude", "not", "iif",
    "length", "startsWith", "endsWith", "contains", "indexOf", "substring", "toChars", "replace",
    "abs", "ceiling", "floor", "truncate",
-   "toString", "toInteger", "toDecimal", "toBoolean", "convertsToString", "convertsToInteger", "convertsToDecimal", "convertsToBoolean"]
+   "toString", "toInteger", "toDecimal", "toBoolean", "convertsToString", "convertsToInteger", "convertsToDecimal", "convertsToBoolean",
+   "toDate", "toDateTime", "toTime", "toQuantity", "convertsToDate", "convertsToDateTime", "convertsToTime", "convertsToQuantity"]
 
 def argCount : Ex → Nat
   | .argCons _ r => argCount r + 1
@@ -121,7 +137,7 @@ def argCount : Ex → Nat
     clone whose flag starts false and is thrown away. -/
 def compile (t : List FP.Gen.FuncTable.Entry) : Ex → Bool → CRes (E × Bool)
   | .lit tok, vr => (compileLit tok).bind fun e => .ok (e, vr)
-  | .qty _ _, _ => .unmodelled
+  | .qty n u, vr => (compileQuantity n u).bind fun e => .ok (e, vr)
   | .ext n, vr => .ok (.ext n, vr)
   | .special "$this", vr => .ok (.this, vr)
   | .special _, _ => .error                                  -- $index / $total: errNotSupported
@@ -254,13 +270,19 @@ def toCV : Val → Option Conv.CV
   | .int i => some (.int i)
   | .dec d => some (.dec d)
   | .str s => (String.fromUTF8? (ByteArray.mk s.toArray)).map fun x => .str x.toList
-  | _ => none
+  | .quantity d u => (String.fromUTF8? (ByteArray.mk u.toArray)).map fun x => .quantity d x.toList
+  | .date t => some (.date t.layout (Temporal.wallOfDate t))
+  | .dateTime t => some (.dateTime t.layout (Temporal.wallOfDateTime t))
+  | .time t => some (.time t.layout (Temporal.wallOfTime t))
+  | .other _ => none
 def ofCV : Conv.CV → Option Val
   | .bool b => some (.bool b)
   | .int i => some (.int i)
   | .dec d => some (.dec d)
   | .str s => some (.str (utf8 s))
-  | _ => none
+  | .quantity d u => some (.quantity d (utf8 u))
+  | .complex => none
+  | cv => Temporal.ofCV cv
 
 /-- a conversion function on a collection (impl/conversion.go): empty stays empty, several items are an error -/
 def convOn (t : Conv.Ty) (input : List Val) : Res (List Val) :=
@@ -282,6 +304,18 @@ def convertsOn (t : Conv.Ty) (input : List Val) : Res (List Val) :=
   | [] => .ok []
   | [v] => (match toCV v with | none => .err "UNMODELLED" | some cv => .ok [.bool (Conv.convertsTo t cv)])
   | _ => .err "not-singleton"
+
+def isTemporal : Val → Bool
+  | .date _ | .dateTime _ | .time _ => true
+  | _ => false
+
+/-- `ArithmeticExpression.Evaluate` on evaluated operands: a Date / DateTime / Time plus or minus a
+    Quantity is the calendar shift (FP.Model.Temporal / Calendar); everything else is FP.Model.Ops -/
+def arithEv (op : ArithOp) (lv rv : List Val) : Res (List Val) :=
+  match op, lv, rv with
+  | .add, [l], [.quantity v u] => if isTemporal l then mapArithErr (Temporal.shiftVal 1 l v u) else arithColl op lv rv
+  | .sub, [l], [.quantity v u] => if isTemporal l then mapArithErr (Temporal.shiftVal (-1) l v u) else arithColl op lv rv
+  | _, _, _ => arithColl op lv rv
 
 abbrev Ev := List Val → Res (List Val)
 
@@ -317,6 +351,14 @@ def apply0 (name : String) (input : List Val) : Res (List Val) :=
   | "convertsToInteger" => convertsOn .integer input
   | "convertsToDecimal" => convertsOn .decimal input
   | "convertsToBoolean" => convertsOn .boolean input
+  | "toDate" => convOn .date input
+  | "toDateTime" => convOn .dateTime input
+  | "toTime" => convOn .time input
+  | "toQuantity" => convOn .quantity input
+  | "convertsToDate" => convertsOn .date input
+  | "convertsToDateTime" => convertsOn .dateTime input
+  | "convertsToTime" => convertsOn .time input
+  | "convertsToQuantity" => convertsOn .quantity input
   | _ => .err "UNMODELLED"
 
 /-- functions with one argument `a` (given as its evaluation function).  Criteria (`where`,
@@ -386,7 +428,7 @@ def eval (env : Env) : E → List Val → Res (List Val)
     (eval env l input).bind fun lv => (eval env r input).bind fun rv =>
       mapRes bools (cmpExpr op (lv.map some) (rv.map some))
   | .arith op l r, input =>
-    (eval env l input).bind fun lv => (eval env r input).bind fun rv => arithColl op lv rv
+    (eval env l input).bind fun lv => (eval env r input).bind fun rv => arithEv op lv rv
   | .concat l r, input =>
     (eval env l input).bind fun lv => (eval env r input).bind fun rv => concatColl lv rv
   | .isT e t, input =>
